@@ -18,7 +18,7 @@ import signal
 import sys
 import time
 
-LIFETIME = 25
+LIFETIME = 15
 STOPPERS = (signal.SIGTERM, signal.SIGINT, signal.SIGQUIT)
 IGNORED = (signal.SIGHUP, signal.SIGUSR1, signal.SIGUSR2, signal.SIGWINCH, signal.SIGCONT)
 
